@@ -203,9 +203,9 @@ fn scenario_retention(rep: &mut Report, r: &mut Rng, clock: &Clock, d: Duration,
     rep.sample_every(97, || witness.clone());
 }
 
-fn scenario_expiry(rep: &mut Report, r: &mut Rng, clock: &Clock, d: Duration, wait: Duration, touches: u32) {
+fn scenario_expiry(rep: &mut Report, r: &mut Rng, clock: &Clock, d: Duration, wait: Duration, touches: u32, traffic: u32) {
     rep.eval();
-    let witness = format!("expiry: expiry {:?}, {} refreshing touches, then idle {:?}, virtual_time={}", d, touches, wait, clock.virt);
+    let witness = format!("expiry: expiry {:?}, {} refreshing touches, then idle {:?} with {} requests on OTHER keys spread over the idle period, virtual_time={}", d, touches, wait, traffic, clock.virt);
     set_case_str(&witness);
     let mut mid = 0u16;
     let mut server = Server::new(120, d);
@@ -237,8 +237,18 @@ fn scenario_expiry(rep: &mut Report, r: &mut Rng, clock: &Clock, d: Duration, wa
             }
         }
     }
-    // ... then it idles for longer than the expiry
-    clock.advance(wait);
+    // ... then it idles for longer than the expiry, while other keys may stay busy (every gap
+    // between their requests shorter than the expiry)
+    if traffic == 0 {
+        clock.advance(wait);
+    } else {
+        let slice = wait / (traffic + 1);
+        for i in 0..traffic {
+            clock.advance(slice);
+            other_request(&mut server, i, &mut mid);
+        }
+        clock.advance(wait - slice * traffic);
+    }
     match dl_next(&mut server, &mut dl, &mut mid) {
         Ok(false) => {}
         Ok(true) => {
@@ -273,9 +283,9 @@ fn scenario_expiry(rep: &mut Report, r: &mut Rng, clock: &Clock, d: Duration, wa
     rep.sample_every(89, || witness.clone());
 }
 
-fn scenario_reclaim(rep: &mut Report, r: &mut Rng, clock: &Clock, d: Duration, n: u32) {
+fn scenario_reclaim(rep: &mut Report, r: &mut Rng, clock: &Clock, d: Duration, n: u32, traffic: bool) {
     rep.eval();
-    let witness = format!("reclamation: expiry {:?}, {} abandoned transfers, virtual_time={}", d, n, clock.virt);
+    let witness = format!("reclamation: expiry {:?}, {} abandoned transfers, other keys busy meanwhile: {}, virtual_time={}", d, n, traffic, clock.virt);
     set_case_str(&witness);
     let mut mid = 0u16;
     let base_eps = live_endpoints();
@@ -323,17 +333,28 @@ fn scenario_reclaim(rep: &mut Report, r: &mut Rng, clock: &Clock, d: Duration, n
         return;
     }
     // idle past the expiry: nothing is purged until the handler is used again
-    clock.advance(d + EPS + d / 4);
+    let mut busy_keys = 0i64;
+    if traffic {
+        // the handler stays in use for other keys (gaps of a third of the expiry); the abandoned
+        // transfers themselves are never touched again
+        for j in 0..6u32 {
+            clock.advance(d / 3);
+            other_request(&mut server, 7000 + j % 2, &mut mid);
+        }
+        busy_keys = 2;
+    } else {
+        clock.advance(d + EPS + d / 4);
+    }
     let held_idle = live_endpoints() - base_eps;
     // one unrelated call
     other_request(&mut server, 424242, &mut mid);
     let held_after = live_endpoints() - base_eps;
     let live_after = alloc_count::live();
-    // exactly the one new entry remains (2 endpoint instances)
-    if held_after != 2 {
+    // exactly the one new entry remains (2 endpoint instances), plus the keys kept busy
+    if held_after != 2 + 2 * busy_keys {
         rep.violation(
             "expired-entries-not-reclaimed",
-            format!("{} abandoned transfers, idle past the expiry, one unrelated handler call: the handler still holds {} endpoint instances ({} cache entries) instead of 2 (held {} before, {} while idle)", n, held_after, held_after / 2, held, held_idle),
+            format!("{} abandoned transfers, idle past the expiry, one unrelated handler call: the handler still holds {} endpoint instances ({} cache entries) instead of {} (held {} before, {} while idle)", n, held_after, held_after / 2, 2 + 2 * busy_keys, held, held_idle),
             witness,
         );
         return;
@@ -404,11 +425,24 @@ pub fn run_c20(ctx: &mut Ctx) {
                         _ => d * 10,
                     };
                     let touches = r.below(3) as u32;
-                    scenario_expiry(rep, &mut r, &vc, d, wait, touches);
+                    // other keys busy during the idle period: gaps of wait/(n+1) < expiry
+                    let traffic = match r.below(3) {
+                        0 => 0,
+                        1 => (wait.as_millis() / d.as_millis().max(1)) as u32 * 3 + 3,
+                        _ => r.urange(20, 200) as u32,
+                    };
+                    scenario_expiry(rep, &mut r, &vc, d, wait, touches, traffic);
+                    if traffic > 0 {
+                        rep.count("expiry_histories_with_other_traffic");
+                    }
                 }
                 _ => {
                     let n = r.urange(1, 50) as u32;
-                    scenario_reclaim(rep, &mut r, &vc, d, n);
+                    let traffic = r.bool();
+                    scenario_reclaim(rep, &mut r, &vc, d, n, traffic);
+                    if traffic {
+                        rep.count("reclaim_histories_with_other_traffic");
+                    }
                 }
             }
         }
@@ -418,7 +452,9 @@ pub fn run_c20(ctx: &mut Ctx) {
         }
         rep.floor("retention_histories_held", 1);
         rep.floor("expiry_histories_held", 1);
+        rep.floor("expiry_histories_with_other_traffic", 1);
         rep.floor("reclaim_histories_held", 1);
+        rep.floor("reclaim_histories_with_other_traffic", 1);
         vclock::set_frozen(false);
     } else {
         rep.note("virtual clock not available in this build: real-time mode only (must-be-expired direction)");
@@ -428,7 +464,7 @@ pub fn run_c20(ctx: &mut Ctx) {
     let n_real = if level >= 2 { 4 } else { 1 };
     for _ in 0..n_real {
         let d = Duration::from_millis(r.range(20, 60));
-        scenario_expiry(rep, &mut r, &rc, d, d * 4 + Duration::from_millis(20), 0);
+        scenario_expiry(rep, &mut r, &rc, d, d * 4 + Duration::from_millis(20), 0, 0);
         rep.count("real_time_expiry_runs");
         // reclamation in real time
         let d = Duration::from_millis(r.range(20, 60));
